@@ -47,6 +47,8 @@ def structures(ctx):
         for p in gen2d.all_matchings(n):
             if n <= 6 or gen2d.is_knotted(p):
                 yield ("exhaustive", p)
+    for _ in range(5 if ctx.quick else 50):
+        yield ("many-stems", gen2d.many_stems(rng, rng.randint(9, 13)))
     for _ in range(60 if ctx.quick else 1500):
         k = rng.randint(3, 8 if ctx.quick else 11)
         p = gen2d.layout(rng, k, maxlen=rng.choice([2, 4, 6]), maxgap=rng.choice([0, 1, 2]))
@@ -68,7 +70,7 @@ def run(ctx):
         if any(s > 8 for s in sizes):
             continue
         regs = impl2d.regions(b)
-        if len(regs) > 9:
+        if len(regs) > 9 and kind != "many-stems":
             continue
         knotted = bool(sizes)
         ctx.count(tuple(pairs), knotted, kind)
@@ -98,7 +100,19 @@ def run(ctx):
         # spec: proper, optimal among all proper assignments, >= FCFS, stable
         levels = [gen2d.OPEN.index(res[r[0] - 1]) for r in regs]
         sc = py_score(regs, levels)
-        opt, adj = py_opt(regs)
+        opt, adj = py_opt(regs) if len(regs) <= 9 else (None, None)
+        if opt is None:
+            # many stems: brute force over the knotted ones only (the others sit on level 0 in every optimum)
+            n_ = len(regs)
+            adj = [[False] * n_ for _ in range(n_)]
+            for i_, j_ in itertools.combinations(range(n_), 2):
+                k_, l_, _ = regs[i_]
+                m_, nn_, _ = regs[j_]
+                if k_ < m_ < l_ < nn_ or m_ < k_ < nn_ < l_:
+                    adj[i_][j_] = adj[j_][i_] = True
+            knotted_ix = [i_ for i_ in range(n_) if any(adj[i_])]
+            sub, _ = py_opt([regs[i_] for i_ in knotted_ix])
+            opt = sub + sum(regs[i_][2] for i_ in range(n_) if i_ not in knotted_ix)
         case.update(levels=levels, score=sc, optimum=opt)
         fc = b.fcfs.structure
         fsc = py_score(regs, [gen2d.OPEN.index(fc[r[0] - 1]) for r in regs])
